@@ -318,6 +318,14 @@ fn run_clone(ctx: &mut Ctx, cell: u32) {
         ctx.fail(&format!("clone-outcome:{}", r.outcome.class()), format!("clone ended with {}; {}", r.outcome.short(), desc));
         return;
     }
+    // O4 (DESIGN.md section 6): a seed that is the output grows while it is scanned; the
+    // chunker stream is polled again after it delivered its last chunk, reads the new bytes and
+    // panics on its stale scan position. A bita defect, but of none of the listed properties
+    // (it is neither a refusal nor a success): not judged here.
+    if seed_kind == "output-itself" && matches!(&r.outcome, Outcome::Panic(p) if p.contains("bitar/src/chunker/")) {
+        simkit::count("observation:O4-chunker-polled-again-on-grown-seed");
+        return;
+    }
     if refusal {
         if r.outcome.is_success() {
             ctx.fail(
